@@ -272,8 +272,13 @@ func panicSiteFrom(stack string, seenPanic bool) string { return simrt.PanicSite
 // knownFinding maps a violation class to a listed known finding by the call site that fails.
 func knownFinding(x *simrt.Ctx, class string) string {
 	for _, k := range x.Known {
-		if k.Status == "known" && k.Signature != "" && strings.Contains(class, k.Signature) {
-			return k.ID
+		if k.Status != "known" || k.Signature == "" {
+			continue
+		}
+		for _, sig := range strings.Split(k.Signature, "|") {
+			if sig = strings.TrimSpace(sig); sig != "" && strings.Contains(class, sig) {
+				return k.ID
+			}
 		}
 	}
 	return ""
@@ -532,7 +537,20 @@ func (e Engine) Run(t *simrt.Tape, c simrt.Case, x *simrt.Ctx) *simrt.Result {
 		if err != nil {
 			panic(err)
 		}
-		for _, p := range []string{`[a-z]+`, `[\x0100-\x2000]`, `[a-\x0010FFFF]*`, `[\x00010000-\x0010FFFF]`} {
+		// Three families: bracket ranges over a large part of the code space; repetition counts whose
+		// VALUE (not length) drives the cost; repetition counts that do not fit a machine integer (the
+		// cost of these must not depend on what the digits wrap around to).
+		probes := []struct{ p, tag string }{
+			{`[a-z]+`, "control"}, {`[\x0100-\x2000]`, "control"}, {`a{3,40}b{12}`, "control"},
+			{`[a-\x0010FFFF]*`, "wide_range"}, {`[\x00010000-\x0010FFFF]`, "wide_range"},
+			{`a{1000000000}`, "repeat_count"}, {`a{9223372036854775807}`, "repeat_count"},
+			{`x{1,9223372036854775808}`, "repeat_overflow"}, {`a{9223372036854775808}`, "repeat_overflow"},
+			{`ab{18446744073709551615}c`, "repeat_overflow"}, {`[0-9]{0,9223372036854775808}`, "repeat_overflow"},
+			{`(x|y){13835058055282163712}?`, "repeat_overflow"}, {`a{2,99999999999999999999999999}`, "repeat_overflow"},
+			{`a{18446744073709551617,}`, "repeat_overflow"},
+		}
+		for _, pr := range probes {
+			p := pr.p
 			cmd := exec.Command("sh", "-c", "ulimit -v 1000000; exec timeout -s KILL 45 \"$0\" -pattern-probe \"$1\"", exe, p)
 			var out bytes.Buffer
 			cmd.Stdout, cmd.Stderr = &out, &out
@@ -548,6 +566,8 @@ func (e Engine) Run(t *simrt.Tape, c simrt.Case, x *simrt.Ctx) *simrt.Result {
 					outcome = "died"
 					if strings.Contains(out.String(), "out of memory") {
 						outcome = "out_of_memory"
+					} else if strings.Contains(out.String(), "panic:") || strings.Contains(out.String(), "fatal error:") {
+						outcome = "panic"
 					}
 				}
 			case <-time.After(30 * time.Second):
@@ -558,12 +578,17 @@ func (e Engine) Run(t *simrt.Tape, c simrt.Case, x *simrt.Ctx) *simrt.Result {
 			res.Key("resource_probe", p)
 			res.Volatile["resource_probe:"+outcome]++ // out_of_memory or timeout, whichever comes first on this machine
 			if outcome != "ok" {
-				cls := "resource_exhaustion:" + outcome + "[wide_range]"
+				cls := "resource_exhaustion:" + outcome + "[" + pr.tag + "]"
+				msg := fmt.Sprintf("compiling the pattern %q exhausts 1 GB of memory / 30 s (%s): %s", p, outcome, clip(firstLineWith(out.String(), "fatal error")))
+				if outcome == "panic" {
+					cls = "panic:pattern_probe[" + pr.tag + "]@" + panicSiteFrom(out.String(), true)
+					msg = fmt.Sprintf("compiling the pattern %q dies with a Go panic: %s", p, clip(out.String()))
+				}
 				if id := knownFinding(x, cls); id != "" {
 					res.Known[id]++
 					continue
 				}
-				res.Violation = &simrt.Violation{Class: cls, Message: fmt.Sprintf("compiling the pattern %q exhausts 1 GB of memory / 30 s (%s): %s", p, outcome, clip(firstLineWith(out.String(), "fatal error")))}
+				res.Violation = &simrt.Violation{Class: cls, Message: msg, Detail: map[string]any{"pattern": p}}
 				return res
 			}
 		}
